@@ -96,7 +96,7 @@ def h_pure(ctx: Ctx, cfg):
         ctx.require(shared.in_get == before_get, "purity:dsge-second-mapping-extends-genotype-again")
     ctx.require((p1 is None) == (p2 is None), "purity:mapping-fails-only-sometimes")
     if p1 is not None:
-        ctx.require(OT.struct_eq(p1, p2), "purity:same-genotype-maps-to-different-programs", lambda: {"first": repr(p1)[:200], "second": repr(p2)[:200]})
+        ctx.require(OT.struct_eq(p1, p2), "purity:same-genotype-maps-to-different-programs", lambda: {"first": OT.show(p1), "second": OT.show(p2)})
 
 
 def _tags_last(self):
